@@ -370,6 +370,8 @@ def run(ctx):
     ctx.guarded(r, QD.r_quadrant_tables)
     r = ctx.rule("R1u", "each sign-class case of Interval::atan2 evaluates the two corners of the box where the angle is largest and smallest (from the monotonicity of atan2 in y and x on that class)", 7)
     ctx.guarded(r, QD.r_atan2_corners)
+    r = ctx.rule("R1w", "Interval::rem_euclid's same-period shortcut is refused when the quotients overflow (test evaluated under IEEE semantics at +-inf / NaN)", 1)
+    ctx.guarded(r, QD.r_rem_euclid_shortcut)
     from .. import corners as CRN
 
     r = ctx.rule("R1v", "the interpreter's interval product and quotient take their bounds as the smallest / largest of all four corner combinations (the loops are unrolled symbolically)", 2)
@@ -416,3 +418,5 @@ def run(ctx):
     r = ctx.rule("R3l", "interval rand / mix: on the path where each operand is a single bit pattern, the native clauses (x86_64 and aarch64) compute the hash term of fidget_core::rng", 4)
     for arch in ("x86_64", "aarch64"):
         ctx.guarded(r, HS.check_hash_terms, arch, "interval")
+    r = ctx.rule("R3m", "NaN operands of the native interval rand / mix are recognised by an unordered float self-compare, never by one bit pattern", 2)
+    ctx.guarded(r, AC.check_nan_screens, "interval")
